@@ -1961,6 +1961,8 @@ def _changed_lines(lines, ref_lines):
 
 
 _DEADLINE = [None]
+_SOFT_MOVES = frozenset(['rename', 'rename_param', 'rename_comp', 'mirror', 'inline_temp', 'extract_ref_temp', 'fwd_subst', 'drop_dead', 'alias', 'comp_kind',
+                         'len_zero', 'pop_to_del', 'del_to_pop', 'swap_adjacent', 'demorgan', 'demorgan_rev', 'dict_call_to_comp', 'dict_comp_to_call'])
 
 
 def towards(f, ref_text, budget=300, seconds=2.0, nested=False):
@@ -1991,8 +1993,11 @@ def towards(f, ref_text, budget=300, seconds=2.0, nested=False):
     units = min(600000, _DEADLINE[0] if _DEADLINE[0] is not None else 600000)
     budget = max(20, min(budget * 4, units // size))
     best, best_d = f, d0
+    # a state reached only through spelling-level moves is always an improvement for the rules; a state that restructured control
+    # flow is kept only when the search gets at least half of the way to the reference text - a half-way shape is one no rule was written for
+    soft_best, soft_d = f, d0
     seen = set(['\n'.join(start)])
-    frontier = [(d0, 0, f, start)]
+    frontier = [(d0, 0, f, start, True)]
     tick = 0
     spent = 0
     expanded = 0
@@ -2000,7 +2005,7 @@ def towards(f, ref_text, budget=300, seconds=2.0, nested=False):
     while frontier and spent < budget and best_d > 0 and expanded < max_expand:
         expanded += 1
         frontier.sort(key=lambda x: (x[0], x[1]))
-        d, _t, cur, cur_lines = frontier.pop(0)
+        d, _t, cur, cur_lines, cur_soft = frontier.pop(0)
         if d > best_d + 6:
             break
         changed = _changed_lines(cur_lines, ref_lines)
@@ -2028,13 +2033,19 @@ def towards(f, ref_text, budget=300, seconds=2.0, nested=False):
                 continue
             seen.add(key)
             dg = _dist(ls, ref_lines)
+            g_soft = cur_soft and cand[0] in _SOFT_MOVES
             if dg < best_d:
                 best, best_d = g, dg
                 if dg == 0:
                     break
+            if g_soft and dg < soft_d:
+                soft_best, soft_d = g, dg
             if dg <= d + 2:
                 tick += 1
-                frontier.append((dg, tick, g, ls))
+                frontier.append((dg, tick, g, ls, g_soft))
     if _DEADLINE[0] is not None:
         _DEADLINE[0] = max(0, _DEADLINE[0] - spent * size)
+    if best_d != 0 and best_d > d0 // 2:
+        # restructured but still far from the reference: fall back to the best spelling-only state
+        best, best_d = soft_best, soft_d
     return best, d0, best_d
